@@ -60,9 +60,14 @@ func FamilyConc(tier string) []*Scenario {
 		{"c2-t1", 2, 1, []SeqSpec{Seq(A(Overrun)), Seq(A()), Seq(A()), Seq(A())}},
 		{"c2-t2-two", 2, 2, []SeqSpec{Seq(A(Overrun)), Seq(A(Overrun)), Seq(A()), Seq(A())}},
 		{"c1-retry", 1, 0, []SeqSpec{Seq(AR(1, Overrun, OK), A()), Seq(A())}},
+		// the same with a plugin that ignores the cancellation and answers LATE, whenever the explorer lets it: nobody
+		// must take that answer for the answer of a later call
+		{"late-c1-tall", 1, -1, []SeqSpec{Seq(A(Late)), Seq(A(Late)), Seq(A())}},
+		{"late-c1-retry", 1, 0, []SeqSpec{Seq(AR(1, Late, Late), A()), Seq(A())}},
 	} {
-		out = append(out, &Scenario{Family: "F-seq", Name: "conc-overrun-" + v.name, TimeoutRace: true, MaxTicks: 10,
-			Plans: []PlanSpec{{Blocks: []BlockSpec{{Seqs: v.seqs, Conc: v.conc, Tol: v.tol}, {Seqs: okSeqs(2, 1), Conc: 1}}}}})
+		sc := &Scenario{Family: "F-seq", Name: "conc-overrun-" + v.name, TimeoutRace: true, MaxTicks: 10,
+			Plans: []PlanSpec{{Blocks: []BlockSpec{{Seqs: v.seqs, Conc: v.conc, Tol: v.tol}, {Seqs: okSeqs(2, 1), Conc: 1}}}}}
+		out = append(out, sc)
 	}
 	// two plans on one workstream
 	out = append(out, &Scenario{Family: "F-seq", Name: "conc-2plans",
